@@ -741,6 +741,16 @@ def rule_r5(ctx) -> List[R.Inst]:
         if isinstance(n, ast.Assign) and isinstance(n.targets[0], ast.Subscript) and C.const_str(n.targets[0].slice):
             slots = {C.self_attr(x.func.value) for x in ast.walk(n.value) if isinstance(x, ast.Call) and call_name(x) == "to_yaml"}
             written[C.const_str(n.targets[0].slice)] = (slots, n)
+        # ... or as keywords / a display handed to <document>.update(..)
+        if isinstance(n, ast.Expr) and isinstance(n.value, ast.Call) and isinstance(n.value.func, ast.Attribute) and n.value.func.attr == "update":
+            u_ = n.value
+            ents = [(k.arg, k.value) for k in u_.keywords if k.arg]
+            if len(u_.args) == 1 and as_dict(u_.args[0]) is not None:
+                ents += [(C.const_str(k_), v_) for k_, v_ in zip(as_dict(u_.args[0]).keys, as_dict(u_.args[0]).values) if k_ is not None and C.const_str(k_)]
+            for k_, v_ in ents:
+                slots = {C.self_attr(x.func.value) for x in ast.walk(v_) if isinstance(x, ast.Call) and call_name(x) == "to_yaml"}
+                if slots:
+                    written.setdefault(k_, (slots, v_))
         # ... or as entries of the dict display the document is built as: {**meta, "TimingPoints": ..., ...}
         if as_dict(n) is not None:
             for k_, v_ in zip(as_dict(n).keys, as_dict(n).values):
